@@ -475,6 +475,8 @@ func TestC14LargeBatch(t *testing.T) {
 			hx.Fail(t, ev.Failure{Property: "C14", Signature: "retry-differs-from-single-insert", Clause: "failures followed by a successful retry lead to the same answers as a single successful insertion: " + why, Case: desc, Observed: why})
 		}
 		col.Add("injected_faults", int64(nf))
-		col.Case(true, hx.JSON(briefBatch(batch)), func() any { return map[string]any{"batch_size": len(batch), "driver_calls": total, "faults_injected": nf} })
+		col.Case(true, hx.JSON(briefBatch(batch)), func() any {
+			return map[string]any{"batch_size": len(batch), "driver_calls": total, "faults_injected": nf}
+		})
 	})
 }
